@@ -96,6 +96,7 @@ func TestC15(t *testing.T) {
 				}
 				restore := deterministicGC()
 				var run c15Runner
+				run.beat = r.Idle
 				hist := []core.Case{
 					{Kind: "ReadValue", In: []byte(`{"a":[1,{"b":"x\n"}],"c":{}}`)},
 					{Kind: "ReadValue", In: []byte(`[1,`)},
@@ -122,6 +123,7 @@ func TestC15(t *testing.T) {
 		e.rapidStage("histories", "stateful", e.cfg.N(600, 100000), func(rt *rapid.T) {
 			defer deterministicGC()() // collections happen only at history start and at GC steps
 			var run c15Runner
+			run.beat = r.Idle
 			var hist []core.Case
 			hkey := uint64(14695981039346656037)
 			do := func(step core.Case) {
@@ -201,9 +203,10 @@ func TestC15(t *testing.T) {
 		// entry point, or as siblings inside one document: what a reader keeps of a big container
 		// (a spare backing array, a slab, a size hint) must not end up shared between results.
 		// The expected trees are built next to the documents, not decoded.
-		e.rapidStage("size-ladders", "stateful", e.cfg.N(120, 20000), func(rt *rapid.T) {
+		e.rapidStage("size-ladders", "stateful", e.cfg.N(120, 8000), func(rt *rapid.T) {
 			defer deterministicGC()()
 			var run c15Runner
+			run.beat = r.Idle
 			var hist []core.Case
 			big := []int64{100, 300, 5000, 20000, 70000, 70000}[rapid.IntRange(0, 5).Draw(rt, "big")]
 			frac := func(label string) int64 {
